@@ -244,6 +244,13 @@ def xonly_inputs(rng, n, agg):
                 fact = {"values": vals, "validity": ~missing, "dyadic": True}
         else:
             fact = gen.fact_case(rng, n, k=None, kind=kind)
+            if kind == "i8" and rng.random() < 0.3:
+                # integers no float64 can hold exactly (ids, hashes): beyond 2^53, both signs
+                off = int(gen.pick(rng, [2 ** 62, -(2 ** 62), 2 ** 53 + 1]))
+                v = fact["values"]
+                small = numpy.abs(v) < 1000
+                fact["values"] = numpy.where(small, v + off, v)
+                fact["huge_int"] = True
         weights = {"kind": "none"}
     elif agg in ("corrcoef", "covariance"):
         fact = gen.fact_case(rng, n, k=int(rng.integers(2, 4)), kind="f8", dyadic=False)
@@ -282,6 +289,13 @@ def xonly_inputs(rng, n, agg):
             weights["values"] = numpy.where(numpy.nan_to_num(v, nan=1.0, posinf=1.0) <= 0, 0.5, v)
         elif weights["kind"] == "scalar":
             weights["values"] = float(gen.pick(rng, [0.5, 1.0, 2.0]))
+    if agg not in ("min", "max") and fact["values"].dtype.kind == "f" and not fact.get("offset") and rng.random() < 0.25:
+        # the same data on a very small / large scale (units of 1e-6, 1e-10, 1e7): scaling by a power of two is exact,
+        # so every statistic scales with it - a fixed absolute threshold inside the computation does not
+        sc = float(gen.pick(rng, [2.0 ** -20, 2.0 ** -34, 2.0 ** 24]))
+        v = fact["values"]
+        fact["values"] = numpy.where(numpy.isfinite(v) & (numpy.abs(v) < 1e200), v * sc, v)
+        fact["scale"] = sc
     return {"fact": fact, "weights": weights, "ignore_missing": bool(rng.random() < 0.5),
             "p": float(gen.pick(rng, [0, 0.1, 0.25, 0.5, 0.75, 0.9, 1, round(float(rng.random()), 3)]))}
 
